@@ -22,7 +22,7 @@ CFG = {
             "fragment payloads through the real parser vs the model. peerfx: per-frame correspondence of the dispatch model (handle_frame): a real "
             "channel in this process dials a raw peer, which sends generated frames one at a time (valid / duplicate-id / truncated / byte-mutated "
             "call reqs, continuations and response-side frames for unknown and in-flight ids, error frames (truncated, protocol code, other codes), "
-            "cancels, pings with payloads, unknown types, init after the handshake, size-field lies, after local Close, with a stalled writer and a "
+            "cancels, pings with payloads (legal on every connection that is not Closed: answered by a ping res also while the connection drains after a local Close), unknown types, init after the handshake, size-field lies, after local Close, with a stalled writer and a "
             "1-3 slot send buffer); after each frame: frames received, calls dispatched, frames queued on exchanges, contexts cancelled, exchanges "
             "stopped, and a snapshot of connection state + both exchange maps are compared with the model; oracle from the statement: a frame built "
             "to be malformed/illegal is only dropped, answered by one error frame, or shuts this connection down, dispatches nothing, touches no "
@@ -34,6 +34,9 @@ CFG = {
         "modelled by hand (tied by correspondence, engine peerfx): Connection.readFrames iteration, handleFrameNoRelay, handleCallReq up to dispatch, "
         "handleCallReqContinue/handleCallRes/handleCallResContinue/handleError/handleCancel/handlePingReq/handlePingRes, SendSystemError, "
         "protocolError, connectionError, close, checkExchanges, mexset/mex forwardPeerFrame",
+        "regenerated from source (go2v, Gen/GenClose2.v pingReqAnswer) and proved equal to the model's decision and to the specification's legality of a ping req "
+        "(C03_ping_state_test_generated, C03_ping_legal_generated): the state test of Connection.handlePingReq (only connectionClosed refuses a ping); "
+        "go2v hints of that target: c.readState() => the state parameter, the protocolError statement => marker 0",
         "regenerated from source (go2v, Gen/GenRelayAdmit.v) and proved equal to the relay model's getDestination step (C03_relay_admission_generated): "
         "Relayer.getDestination incl. the duplicate-id check on ANY item of the outbound table; go2v hints of that target: r.outbound.Get(id,false) => "
         "(tomb, false, found), item.tomb => the tomb flag, the four call.Failed/SendSystemError statements => markers",
